@@ -41,12 +41,20 @@ func (t *thread) maxSteps() int {
 	return 1
 }
 
+// with the onChange callback parking on entry: one more step for every call that can commit
+func (t *thread) maxStepsCb() int { return t.maxSteps() + 1 }
+
+// cbHook, when set, is called by the harness's onChange callback before it records the change
+// (on the goroutine of the call that committed the change, after router.go released its lock).
+var cbHook func()
+
 type schedCase struct {
 	cfg  cfgT
 	pre  []regOp
 	ths  []*thread
 	tag  string
 	stat map[string]int
+	cb   bool // callbacks are steps of the schedule (RouterCb.v, case KSchedCb)
 }
 
 func (g *c12) runSchedule(sc schedCase, sched []int) error {
@@ -83,13 +91,18 @@ func (g *c12) runSchedule(sc schedCase, sched []int) error {
 	}
 	events := make(chan string)
 	var cur *thread
-	verifhook.Set(func(point string) {
+	park := func(point string) {
 		t := cur
 		t.points = append(t.points, point)
 		events <- "parked"
 		<-t.resume
-	})
+	}
+	verifhook.Set(park)
 	defer verifhook.Set(nil)
+	if sc.cb {
+		cbHook = func() { park("onChange") }
+		defer func() { cbHook = nil }()
+	}
 	step := func(i int) error {
 		if i < 0 || i >= len(ths) || ths[i].done {
 			return nil // stutter
@@ -143,6 +156,7 @@ func (g *c12) runSchedule(sc schedCase, sched []int) error {
 		}
 	}
 	verifhook.Set(nil)
+	cbHook = nil
 	var obs, tk []string
 	var jres []any
 	for _, t := range ths {
@@ -174,7 +188,11 @@ func (g *c12) runSchedule(sc schedCase, sched []int) error {
 	for i, v := range executed {
 		ss[i] = vcoq.Nat(v)
 	}
-	coq := vcoq.App("KSched", sc.cfg.coq(), vcoq.Int(sc.cfg.first), vcoq.List(pre), vcoq.List(tk), vcoq.List(ss),
+	ctor, kind, tagp := "KSched", "schedule", "schedule"
+	if sc.cb {
+		ctor, kind, tagp = "KSchedCb", "schedule-callbacks", "schedcb"
+	}
+	coq := vcoq.App(ctor, sc.cfg.coq(), vcoq.Int(sc.cfg.first), vcoq.List(pre), vcoq.List(tk), vcoq.List(ss),
 		vcoq.List(obs), coqChanges(log), vcoq.List(final))
 	gets := map[string]int{}
 	nt := false
@@ -186,8 +204,12 @@ func (g *c12) runSchedule(sc schedCase, sched []int) error {
 			}
 		}
 	}
-	g.o.Add(vcoq.Case{Coq: coq, JSON: map[string]any{"kind": "schedule", "cfg": sc.cfg.js(), "pre": sc.pre, "threads": jres,
-		"schedule": executed, "log": log, "final": jfinal}, Key: coq, NonTrivial: nt, Tags: []string{"schedule", "schedule:" + sc.tag}})
+	if sc.cb {
+		// model-side classification for the histogram: were two commits reported out of order?
+		nt = true
+	}
+	g.o.Add(vcoq.Case{Coq: coq, JSON: map[string]any{"kind": kind, "cfg": sc.cfg.js(), "pre": sc.pre, "threads": jres,
+		"schedule": executed, "log": log, "final": jfinal}, Key: coq, NonTrivial: nt, Tags: []string{tagp, tagp + ":" + sc.tag}})
 	return nil
 }
 
@@ -265,6 +287,7 @@ func (g *c12) schedules() {
 			g.direct("schedule-stuck", failed.Error(), map[string]any{"case": sc.tag})
 		}
 	}
+	g.cbSchedules()
 	// random schedules of 3-5 threads of random kinds over two names
 	n := 300
 	if g.tier == "thorough" {
@@ -309,6 +332,100 @@ func (g *c12) schedules() {
 		}
 		if err := g.runSchedule(sc, s); err != nil {
 			g.direct("schedule-stuck", err.Error(), map[string]any{"case": "random"})
+			break
+		}
+	}
+}
+
+// cbSchedules: the onChange callback parks on entry, so a schedule also decides when each
+// callback is delivered relative to other calls' blocks and callbacks (RouterCb.v).
+func (g *c12) cbSchedules() {
+	base := func(facOK bool) cfgT {
+		c := cfgT{fb: map[string]int{}, first: 1000}
+		if facOK {
+			c.facOK = []string{"n", "m"}
+		}
+		return c
+	}
+	get := func(n string) *thread { return &thread{kind: "get", name: n} }
+	add := func(n string, c int) *thread { return &thread{kind: "add", name: n, c: c} }
+	rem := func(n string) *thread { return &thread{kind: "remove", name: n} }
+	one := []regOp{{"add", "n", 1}}
+	cases := []schedCase{
+		{cfg: base(false), ths: []*thread{add("n", 1), add("n", 2)}, tag: "add+add"},
+		{cfg: base(false), ths: []*thread{add("n", 1), add("m", 2)}, tag: "add+add-two-names"},
+		{cfg: base(false), ths: []*thread{add("n", 5), add("n", 5)}, tag: "add+add-same-client"},
+		{cfg: base(false), ths: []*thread{add("n", 1), rem("n")}, tag: "add+remove"},
+		{cfg: base(false), pre: one, ths: []*thread{add("n", 2), rem("n")}, tag: "add+remove-registered"},
+		{cfg: base(false), pre: one, ths: []*thread{rem("n"), rem("n")}, tag: "remove+remove-registered"},
+		{cfg: base(true), ths: []*thread{get("n"), add("n", 7)}, tag: "get+add"},
+		{cfg: base(true), ths: []*thread{get("n"), rem("n")}, tag: "get+remove"},
+		{cfg: base(true), ths: []*thread{get("n"), get("n")}, tag: "2get-factory"},
+		{cfg: base(false), ths: []*thread{add("n", 1), add("n", 2), add("n", 3)}, tag: "3add"},
+		{cfg: base(false), ths: []*thread{add("n", 1), rem("n"), add("n", 2)}, tag: "add+remove+add"},
+	}
+	if g.tier == "thorough" {
+		cases = append(cases,
+			schedCase{cfg: base(true), ths: []*thread{get("n"), get("n"), rem("n")}, tag: "2get+remove"},
+			schedCase{cfg: base(true), ths: []*thread{get("n"), add("n", 7), rem("n")}, tag: "get+add+remove"},
+		)
+	}
+	for _, sc := range cases {
+		sc.cb = true
+		steps := make([]int, len(sc.ths))
+		for i, t := range sc.ths {
+			steps[i] = t.maxStepsCb()
+		}
+		var failed error
+		interleavings(steps, func(s []int) {
+			if failed != nil {
+				return
+			}
+			failed = g.runSchedule(sc, s)
+		})
+		if failed != nil {
+			g.direct("schedule-stuck", failed.Error(), map[string]any{"case": "cb:" + sc.tag})
+		}
+	}
+	n := 200
+	if g.tier == "thorough" {
+		n = 4000
+	}
+	for i := 0; i < n; i++ {
+		k := g.r.Range(2, 4)
+		sc := schedCase{cfg: base(g.r.Chance(70)), tag: "random", cb: true}
+		if g.r.Chance(30) {
+			sc.pre = one
+		}
+		var steps []int
+		for j := 0; j < k; j++ {
+			name := "n"
+			if g.r.Chance(20) {
+				name = "m"
+			}
+			switch g.r.Intn(5) {
+			case 0, 1:
+				sc.ths = append(sc.ths, add(name, 10+j))
+			case 2:
+				sc.ths = append(sc.ths, rem(name))
+			default:
+				sc.ths = append(sc.ths, get(name))
+			}
+			steps = append(steps, sc.ths[j].maxStepsCb())
+		}
+		var s []int
+		left := append([]int(nil), steps...)
+		for len(s) < 14 {
+			j := g.r.Intn(k)
+			if left[j] > 0 {
+				left[j]--
+				s = append(s, j)
+			} else if g.r.Chance(30) {
+				break
+			}
+		}
+		if err := g.runSchedule(sc, s); err != nil {
+			g.direct("schedule-stuck", err.Error(), map[string]any{"case": "cb:random"})
 			break
 		}
 	}
